@@ -406,6 +406,17 @@ class MethodSink:
         self._log.append((self._sid, value, kwargs))
 
 
+class SharedMethodSink:
+    """one object whose method is bound several times, the bindings differing only in their keyword arguments (as one
+    output device's control() bound once per controller number): every binding must receive every value"""
+
+    def __init__(self, log):
+        self._log = log
+
+    def set_param(self, value, **kwargs):
+        self._log.append((kwargs.get("index"), value, kwargs))
+
+
 class AutoSpec:
     def __init__(self, lo, hi, bnd, init):
         self.lo, self.hi, self.bnd = lo, hi, bnd
@@ -449,6 +460,7 @@ def run_impl(lines):
     log = []
     sink_owner = {}
     sink_obj = {}
+    shared_sinks = {}
     k = 0
 
     def bad(sig, what):
@@ -492,6 +504,9 @@ def run_impl(lines):
             if mode == "attr":
                 o = AttrSink(log, sid)
                 a.bind_to(o, "param")
+            elif sid % 2 == 1:
+                o = shared_sinks.setdefault(aid, SharedMethodSink(log))
+                a.bind_to(o, "set_param", mode="method", index=sid)
             else:
                 o = MethodSink(log, sid)
                 a.bind_to(o, "set_param", mode="method", index=sid)
@@ -666,6 +681,15 @@ def run_impl(lines):
                     pv = next(plfos[lid])
                     if pv != v:
                         bad("lfo:plfo-differs", "tick %d: next(PLFO(lfo)) = %r but lfo.value = %r" % (k1, pv, v))
+                    # resetting a pattern that READS the oscillator (a track being reset, PReset, all(n)) is not a
+                    # reset of the timeline's oscillator: its phase goes on (checked by the periodicity test above and
+                    # by the model, which knows nothing of these pattern resets)
+                    if (k1 * 7 + lid) % 5 == 0:
+                        plfos[lid].reset()
+                    elif (k1 * 7 + lid) % 11 == 0:
+                        (plfos[lid] * 1).reset()
+                    if l.value != v:
+                        bad("lfo:moved-by-pattern-reset", "tick %d: resetting a pattern that reads the LFO changed lfo.value from %r to %r" % (k1, v, l.value))
                     mine = [g for g in got if sink_owner[g[0]] == ("l", lid)]
                     if [g[0] for g in mine] != sp["sinks"] or any(g[1] != v for g in mine):
                         bad("lfo:binding", "tick %d: LFO sinks %r should each receive %r, got %r" % (k1, sp["sinks"], v, ev(mine)))
